@@ -1,33 +1,22 @@
 (* SigningExample.v — a concrete instance of the Section hypotheses of Signing.v
-   (non-vacuity), and the refutation of the PINNED verification payload. *)
-From Ucanto Require Import Base Ipld Cbor Formats Signing.
+   (non-vacuity), the refutation of the PINNED verification payload, and the witnesses that
+   tamper detection fails outside the json_safe domain (the dag-json collisions). *)
+From Ucanto Require Import Base Ipld Cbor Formats BaseEnc JsonText Did DagJson Signing.
 Open Scope N_scope.
 
 Definition t_sign (k : N) (m : bstr) : bstr := k :: m.
 Definition t_valid (k : N) (m s : bstr) : bool := beq s (k :: m).
-Definition t_join (p : bstr * bstr) : bstr := N.of_nat (length (fst p)) :: fst p ++ snd p.
 Definition t_alg (k : N) : bstr := bs "EdDSA".
 Definition t_did (k : N) : bstr := [237; 1; k].
-Definition t_id (b : bstr) : bstr := b.
 
 Lemma t_valid_sign k m : t_valid k m (t_sign k m) = true.
 Proof. apply beq_refl. Qed.
 Lemma t_valid_unique k m m' s : t_valid k m s = true -> t_valid k m' s = true -> m = m'.
 Proof. unfold t_valid. rewrite !beq_eq. intros -> H. inversion H. reflexivity. Qed.
-Lemma app_inv_len {A} (a1 b1 a2 b2 : list A) : length a1 = length b1 -> a1 ++ a2 = b1 ++ b2 -> a1 = b1 /\ a2 = b2.
-Proof.
-  revert b1. induction a1 as [|x a1 IH]; destruct b1 as [|y b1]; cbn; intros L E; try discriminate; auto.
-  inversion E. inversion L. destruct (IH b1) as [-> ->]; auto.
-Qed.
-Lemma t_join_inj a b : t_join a = t_join b -> a = b.
-Proof.
-  destruct a as [a1 a2], b as [b1 b2]. unfold t_join. cbn [fst snd]. intros H. injection H as L E.
-  apply Nat2N.inj in L. destruct (app_inv_len _ _ _ _ L E) as [-> ->]. reflexivity.
-Qed.
 
-Definition ex_issue := issue t_id t_id cbor_encode t_sign t_alg t_did t_join.
-Definition ex_verify := verify t_id t_id cbor_encode t_valid t_alg t_did t_join.
-Definition ex_verify_pinned := verify_pinned t_id t_id cbor_encode t_valid t_alg t_did t_join.
+Definition ex_issue := issue t_sign t_alg t_did.
+Definition ex_verify := verify t_valid t_alg t_did.
+Definition ex_verify_pinned := verify_pinned t_valid t_alg t_did.
 
 Definition ex_cap : capm := mkCapm (bs "did:key:zAlice") (bs "store/add") (IMap [(bs "size", IInt 5%Z); (bs "a", IList [INull])]).
 Definition ex_tok_nonce := ex_issue 7 (bs "0.9.1") [237; 1; 9] [ex_cap] (Some []) (Some 100%Z) None (Some (bs "n1")) None.
@@ -56,3 +45,85 @@ Example transport_example :
   token_decode (token_bytes ex_tok_nonce) = Some (canon_token ex_tok_nonce) /\
   ex_verify (canon_token ex_tok_nonce) 7 = true.
 Proof. vm_compute. auto. Qed.
+
+(* the bytes that are signed for a concrete token *)
+Example sign_payload_example :
+  sign_payload (bs "EdDSA") ex_tok_plain =
+  b64url (bs "{""alg"":""EdDSA"",""typ"":""JWT"",""ucv"":""0.9.1""}") ++ 46 ::
+  b64url (bs "{""att"":[{""can"":""store/add"",""nb"":{""a"":[null],""size"":5},""with"":""did:key:zAlice""}],""aud"":""did:key:z2NcDE"",""exp"":100,""iss"":""did:key:z2NcDC"",""prf"":[]}").
+Proof. vm_compute. reflexivity. Qed.
+
+(* the hypotheses of tamper detection are satisfiable *)
+Example tamper_hyps_example :
+  json_safe (header_ipld (t_alg 7) (u_v ex_tok_nonce)) = true /\ wf_ipld (header_ipld (t_alg 7) (u_v ex_tok_nonce)) = true /\
+  json_safe (payload_ipld ex_tok_nonce true) = true /\ wf_ipld (payload_ipld ex_tok_nonce true) = true /\
+  token_ids_ok ex_tok_nonce = true /\ token_json_safe ex_tok_nonce = true /\ sign_payload_ok ex_tok_nonce = true.
+Proof. vm_compute. repeat split. Qed.
+
+(* ---------------------------------------------------------------- *)
+(* outside json_safe: a different token with the same signature verifies *)
+
+Definition cap_of (nb : ipld) : capm := mkCapm (bs "did:key:zAlice") (bs "store/add") nb.
+Definition tok_of (nb : ipld) : utoken := ex_issue 7 (bs "0.9.1") [237; 1; 9] [cap_of nb] None (Some 100%Z) None None None.
+Definition retag (t : utoken) (nb : ipld) : utoken :=
+  mkU (u_v t) (u_iss t) (u_aud t) (u_s t) [cap_of nb] (u_prf t) (u_exp t) (u_fct t) (u_nnc t) (u_nbf t).
+
+(* caveat {"k": bytes 01 02 03} replaced by {"k": {"/": {"bytes": "AQID"}}} *)
+Definition nb_bytes : ipld := IMap [(bs "k", IBytes [1; 2; 3])].
+Definition nb_bytes' : ipld := IMap [(bs "k", IMap [(k_slash, IMap [(k_bytes, IString (bs "AQID"))])])].
+(* caveat link replaced by {"/": "<cid string>"} *)
+Definition nb_link : ipld := IMap [(bs "k", ILink ex_cid)].
+Definition nb_link' : ipld := IMap [(bs "k", IMap [(k_slash, IString (cid_string ex_cid))])].
+(* a string with an invalid UTF-8 byte replaced by another invalid byte *)
+Definition nb_str : ipld := IMap [(bs "k", IString [97; 255])].
+Definition nb_str' : ipld := IMap [(bs "k", IString [97; 254])].
+
+Definition tamper_witness (nb nb' : ipld) : Prop :=
+  let t := tok_of nb in let t' := retag t nb' in
+  wf_ipld (token_ipld t) = true /\ wf_ipld (token_ipld t') = true /\
+  wf_ipld (payload_ipld t true) = true /\ wf_ipld (payload_ipld t' true) = true /\
+  ex_verify t 7 = true /\ ex_verify t' 7 = true /\ u_s t' = u_s t /\
+  map canon_cap (u_att t') <> map canon_cap (u_att t) /\ token_bytes t' <> token_bytes t.
+
+Example tamper_bytes_slash_map : tamper_witness nb_bytes nb_bytes'.
+Proof. unfold tamper_witness. repeat split; try (vm_compute; reflexivity); vm_compute; discriminate. Qed.
+Example tamper_link_slash_map : tamper_witness nb_link nb_link'.
+Proof. unfold tamper_witness. repeat split; try (vm_compute; reflexivity); vm_compute; discriminate. Qed.
+Example tamper_invalid_utf8 : tamper_witness nb_str nb_str'.
+Proof. unfold tamper_witness. repeat split; try (vm_compute; reflexivity); vm_compute; discriminate. Qed.
+
+(* the audience: two non-key DIDs that differ in an invalid UTF-8 byte print the same JSON string *)
+Definition aud_a : bstr := core_tag ++ bs "web:" ++ [255].
+Definition aud_b : bstr := core_tag ++ bs "web:" ++ [254].
+Example tamper_audience_invalid_utf8 :
+  let t := ex_issue 7 (bs "0.9.1") aud_a [ex_cap] None (Some 100%Z) None None None in
+  let t' := mkU (u_v t) (u_iss t) aud_b (u_s t) (u_att t) (u_prf t) (u_exp t) (u_fct t) (u_nnc t) (u_nbf t) in
+  token_ids_ok t = true /\ token_ids_ok t' = true /\ ex_verify t 7 = true /\ ex_verify t' 7 = true /\ u_aud t' <> u_aud t.
+Proof. cbv zeta. repeat split; try (vm_compute; reflexivity); vm_compute; discriminate. Qed.
+
+(* undecodable audience bytes all print as the empty DID string (the premise did_okb of token_ids_ok) *)
+Example tamper_audience_undecodable :
+  let t := ex_issue 7 (bs "0.9.1") [] [ex_cap] None (Some 100%Z) None None None in
+  let t' := mkU (u_v t) (u_iss t) [0; 1] (u_s t) (u_att t) (u_prf t) (u_exp t) (u_fct t) (u_nnc t) (u_nbf t) in
+  json_safe (payload_ipld t true) = true /\ json_safe (payload_ipld t' true) = true /\
+  token_ids_ok t = false /\ ex_verify t 7 = true /\ ex_verify t' 7 = true /\ u_aud t' <> u_aud t.
+Proof. cbv zeta. repeat split; try (vm_compute; reflexivity); vm_compute; discriminate. Qed.
+
+(* the tamper statement WITHOUT the json_safe premises is false (for this signature instance) *)
+Definition tamper_unrestricted : Prop :=
+  forall t t' k,
+    wf_ipld (header_ipld (t_alg k) (u_v t)) = true -> wf_ipld (header_ipld (t_alg k) (u_v t')) = true ->
+    wf_ipld (payload_ipld t true) = true -> wf_ipld (payload_ipld t' true) = true ->
+    token_ids_ok t = true -> token_ids_ok t' = true ->
+    ex_verify t k = true -> ex_verify t' k = true -> u_s t' = u_s t ->
+    u_v t' = u_v t /\ u_iss t' = u_iss t /\ u_aud t' = u_aud t /\
+    map canon_cap (u_att t') = map canon_cap (u_att t) /\ prf_list t' = prf_list t /\
+    u_exp t' = u_exp t /\ option_map (map canon_fact) (u_fct t') = option_map (map canon_fact) (u_fct t) /\
+    u_nnc t' = u_nnc t /\ u_nbf t' = u_nbf t.
+
+Theorem tamper_unrestricted_refuted : ~ tamper_unrestricted.
+Proof.
+  intros H. specialize (H (tok_of nb_bytes) (retag (tok_of nb_bytes) nb_bytes') 7).
+  destruct H as [_ [_ [_ [C _]]]]; try (vm_compute; reflexivity).
+  revert C. vm_compute. discriminate.
+Qed.
